@@ -48,6 +48,11 @@ chk("C10", "exploration", "exhaustive configuration sweep on the real devices ag
     "Trusted: refregion.rs (set-valued where RP002 revisions differ; FSK/LR-FHSS entries only require some region-defined LoRa rate). nb offset sign convention accepted either way.",
     "DESIGN.md §3 C10")
 
+chk("C09", "model_checking", "explicit-state BFS over channel-plan histories with every RNG outcome of each transmission enumerated; TxConfig judged against snapshot and regional tables",
+    "BFS on the real device per region x board (radio max power, antenna gain) x activation / join-bias / ADR-back-off configuration. In every reached state the next uplink or join attempt is expanded once per value of the first RNG draw (the harness owns the RNG, so every possible channel choice is checked, not sampled); other events reshape the plan (LinkADRReq masks/DR/TX power, NewChannelReq create/delete, DlChannelReq, CFLists incl. minimal and out-of-band, set_datarate). Each TxConfig must be in band, on a defined and enabled channel (join: a join channel at the mandated rate), at a region-defined rate whose bandwidth matches the channel, within the power bound; selection must terminate under the fair stream.",
+    "Trusted: refregion.rs (most permissive EIRP of set-valued entries). Explored on the nb front-end (channel selection and power are shared MAC code).",
+    "DESIGN.md §3 C09")
+
 ALL = ["C%02d" % i for i in range(1, 21)]
 NA_REASON = "check not built yet in this round; see DESIGN.md for the planned bounded exploration"
 
